@@ -21,8 +21,38 @@ class StdLib:
         self.names = {}
 
     # ------------------------------------------------------------------ records
+    OPAQUE_RE = re.compile(r"std::(__cxx11::)?(basic_string<|map<|vector<|basic_stringstream<|basic_ostream<|basic_ostringstream<|set<|list<|unordered_map<|_Rb_tree_iterator<|_Rb_tree_const_iterator<|pair<)")
+
+    def is_opaque(self, canon):
+        return bool(self.tr.opts.get("opaque_std")) and bool(self.OPAQUE_RE.match(canon))
+
+    def opaque_value(self, ty):
+        """nondeterministic value of C++ type ty (used for results of opaque std operations)"""
+        tr = self.tr
+        if ty.kind == "builtin" and ty.name == "void":
+            return X("cast", "void", X("lit", "0"))
+        if ty.kind == "builtin" and ty.name == "bool":
+            return X("call", "nondet__Bool", [], ty=ty)
+        if ty.kind == "builtin":
+            return X("cast", tr.ctype(ty), X("call", "nondet_unsigned_long", []), ty=ty)
+        if ty.kind == "ref" and ty.to.kind == "rec":
+            cn = tr.need_record(ty.to.name)
+            g = "verif_opaque_" + cn
+            tr.globals.setdefault(g, "static %s %s;" % (cn, g))
+            tr.cur.globals[g] = True
+            return deref(X("addr", X("var", g, ty=ty.to), ty=Ty("ptr", to=ty.to)))
+        if ty.kind == "rec":
+            return X("sexpr", [X("decl", ty, "__ov", None)], X("var", "__ov", ty=ty), ty=ty)
+        if ty.kind == "ptr":
+            # an arbitrary pointer that must never be dereferenced by the extracted code (e.g. c_str() handed to a stub)
+            return X("cast", tr.ctype(ty), X("lit", "((void*)0)"), ty=ty)
+        raise ExtractionBreak("opaque std operation returning %s" % ty.key())
+
     def record(self, canon):
         """fields of a modelled std record, or None; ("alias", Ty) for iterator types modelled as pointers"""
+        if self.is_opaque(canon):
+            self.tr.assume("opaque std containers/strings", "in this unit std::string / std::map / std::vector<class> / string streams are OPAQUE: their values are not modelled, every operation on them evaluates its arguments and returns an arbitrary value (sound for memory safety of code that never indexes memory through them)")
+            return [("g_opaque", parse_type("char"))]
         if canon.startswith("std::shared_ptr<") or canon.startswith("std::__shared_ptr<"):
             t = parse_type(targs(canon)[0])
             return [("p", Ty("ptr", to=t)), ("c", Ty("ptr", to=Ty("rec", name="verif_ctrl")))]
@@ -149,6 +179,9 @@ static inline void %(s)s_dtor(%(s)s *v) { if (v->b) free(v->b); v->b = 0; v->n =
             return None
         canon = ety.name
         rets, ps = fn_ret_type(info["type"])
+        if self.is_opaque(canon):
+            tr.rule("opaque std constructor")
+            return [X("expr", X("cast", "void", tr.discard(a))) for a in args if a.get("kind") != "CXXDefaultArgExpr"]
         if canon.startswith("std::shared_ptr<"):
             s = self.ensure_sp(canon)
             def call(fn, *a):
@@ -309,6 +342,8 @@ static inline void verif_lock_guard_dtor(std_lock_guard_std_mutex *g) { g->m->g_
     # ------------------------------------------------------------------ destructors
     def dtor(self, did, ty):
         tr = self.tr
+        if ty.kind == "rec" and self.is_opaque(ty.name):
+            return ""
         if ty.kind == "rec":
             if ty.name.startswith("std::shared_ptr<"):
                 return self.ensure_sp(ty.name) + "_dtor"
@@ -329,6 +364,29 @@ static inline void verif_lock_guard_dtor(std_lock_guard_std_mutex *g) { g->m->g_
     def call(self, q, fid, info, e, args, obj):
         tr = self.tr
         rets, ps = fn_ret_type(info["type"])
+        if tr.opts.get("opaque_std"):
+            # member of an opaque class, or a free function/operator with an opaque argument
+            objty = None
+            if obj is not None:
+                on = self.strip_base_casts(obj[0])
+                objty = tr.ety(on)
+                if obj[1]:
+                    objty = objty.to
+            involved = [objty] if objty is not None else []
+            involved += [parse_type(p).noref() for p in ps if p != "..."]
+            if any(t is not None and t.kind == "rec" and self.is_opaque(t.name) for t in involved):
+                tr.rule("opaque std operation")
+                st = []
+                if obj is not None:
+                    st.append(X("expr", X("cast", "void", addr(tr.lv(self.strip_base_casts(obj[0]))) if not obj[1] else tr.rv(obj[0]))))
+                for a in args:
+                    if a.get("kind") != "CXXDefaultArgExpr":
+                        st.append(X("expr", X("cast", "void", tr.discard(a))))
+                rt = parse_type(rets)
+                v = self.opaque_value(rt)
+                if rt.kind == "ref":
+                    return deref(X("sexpr", st, addr(v), ty=Ty("ptr", to=rt.to)))
+                return X("sexpr", st, v, ty=rt)
         # ---- shared_ptr members
         if re.match(r"std::(__shared_ptr_access|__shared_ptr|shared_ptr)<", q) and obj is not None:
             objn = self.strip_base_casts(obj[0])
@@ -534,6 +592,19 @@ static inline void verif_lock_guard_dtor(std_lock_guard_std_mutex *g) { g->m->g_
             if pt.kind == "ptr":
                 tr.rule("std::distance on pointers")
                 return X("bin", "-", tr.rv(args[1]), tr.rv(args[0]), ty=parse_type("long"))
+        if base in ("isalpha", "isdigit", "isspace", "isalnum", "isupper", "islower", "ispunct") and len(args) == 1:
+            tr.rule("ctype model")
+            tr.assume("<cctype> classification", "isalpha/isdigit/isspace/isalnum/isupper/islower as in the C locale (ASCII)")
+            self.text.setdefault("ctype", """
+static inline int verif_isspace(int c) { return c == ' ' || (c >= 9 && c <= 13); }
+static inline int verif_isdigit(int c) { return c >= '0' && c <= '9'; }
+static inline int verif_isupper(int c) { return c >= 'A' && c <= 'Z'; }
+static inline int verif_islower(int c) { return c >= 'a' && c <= 'z'; }
+static inline int verif_isalpha(int c) { return verif_isupper(c) || verif_islower(c); }
+static inline int verif_isalnum(int c) { return verif_isalpha(c) || verif_isdigit(c); }
+static inline int verif_ispunct(int c) { return c > 32 && c < 127 && !verif_isalnum(c); }
+""")
+            return X("call", "verif_" + base, [tr.rv(args[0])], ty=parse_type("int"))
         if base == "memcpy":
             tr.rule("memcpy model")
             self.contracts["verif_memcpy"] = ("void *verif_memcpy(void *dst, const void *src, unsigned long n)\n"
